@@ -29,7 +29,7 @@ FLOORS = {"nontrivial": 0.5}
 
 
 def budget(tier):
-    return {"examples": 70 if tier == "quick" else 160, "shards": 1 if tier == "quick" else 16}
+    return {"examples": 200 if tier == "quick" else 400, "shards": 1 if tier == "quick" else 16}
 
 
 @st.composite
